@@ -80,6 +80,20 @@ def marker_relation_only(case, detail, m):
     """known-finding predicate (S45): the ONLY thing wrong with the solution is that a reload / break listed in a sequence or
     strict relation is not where the relation puts it (the customer jobs of the relation keep their order); any other message
     on the same case is not covered"""
+    if isinstance(detail, str) and detail.startswith("oracle failed (operator histories"):
+        # secondary stage (C04's histories judged under C01): only the feasibility entry fails and every note of the first
+        # failing step says that a listed / pinned reload or break is not at its place
+        head, _, rest = detail.partition("): ")
+        keys, _, notes_text = rest.partition(" ")
+        if keys != "assigned_part_feasible":
+            return False
+        try:
+            import json as _json
+            notes = _json.loads(notes_text)
+        except Exception:
+            return False
+        ok = ("a pinned marker (reload/break) left its place", MARKER_MSG)
+        return bool(notes) and len(notes) < 6 and all(any(t in n.get("what", "") for t in ok) and "; " not in n.get("what", "") for n in notes)
     if not isinstance(detail, str) or not detail.startswith("feasible violated: ") or "more)" in detail:
         return False
     msgs = [x for x in detail[len("feasible violated: "):].split("; ") if x]
